@@ -59,6 +59,49 @@ using std::ostringstream;
 using std::string;
 
 InterrogateBuilder builder;
+
+/**
+ * The same function may be declared several times.  We keep the first
+ * declaration (it carries the default arguments), but a parameter it leaves
+ * unnamed takes its name from a later declaration that gives one.  Returns
+ * the declaration to keep.
+ */
+static CPPInstance *
+merge_parameter_names(CPPInstance *first, CPPInstance *later) {
+  CPPFunctionType *ftype = first->_type->as_function_type();
+  CPPFunctionType *ltype = later->_type->as_function_type();
+  if (ftype == nullptr || ltype == nullptr ||
+      ftype->_parameters == nullptr || ltype->_parameters == nullptr) {
+    return first;
+  }
+  const CPPParameterList::Parameters &fparams = ftype->_parameters->_parameters;
+  const CPPParameterList::Parameters &lparams = ltype->_parameters->_parameters;
+  if (fparams.size() != lparams.size()) {
+    return first;
+  }
+
+  CPPParameterList *merged_params = nullptr;
+  for (size_t i = 0; i < fparams.size(); ++i) {
+    if (fparams[i]->get_simple_name().empty() &&
+        !lparams[i]->get_simple_name().empty()) {
+      if (merged_params == nullptr) {
+        merged_params = new CPPParameterList(*ftype->_parameters);
+      }
+      CPPInstance *param = new CPPInstance(*fparams[i]);
+      param->_ident = lparams[i]->_ident;
+      merged_params->_parameters[i] = param;
+    }
+  }
+  if (merged_params == nullptr) {
+    return first;
+  }
+
+  CPPFunctionType *merged_type = new CPPFunctionType(*ftype);
+  merged_type->_parameters = merged_params;
+  CPPInstance *merged = new CPPInstance(*first);
+  merged->_type = CPPType::new_type(merged_type);
+  return merged;
+}
 std::string EXPORT_IMPORT_PREFIX;
 
 /**
@@ -1745,6 +1788,10 @@ get_function(CPPInstance *function, string description,
       function->output(prototype, 0, &parser, false);
       prototype << ";";
       ifunction._prototype += "\n" + prototype.str();
+
+    } else if ((*ii).second != function) {
+      // A redeclaration: it may name parameters the first one did not.
+      (*ii).second = merge_parameter_names((*ii).second, function);
     }
 
     // Also set the comment.
@@ -2928,11 +2975,6 @@ define_struct_type(InterrogateType &itype, CPPStructType *cpptype,
  */
 void InterrogateBuilder::
 update_function_comment(CPPInstance *function, CPPScope *scope) {
-  if (function->_leading_comment == nullptr) {
-    // No comment anyway.  Forget it.
-    return;
-  }
-
   // Get a function name so we can look this method up.
   if (function->_ident->_native_scope != scope) {
     function = new CPPInstance(*function);
@@ -2962,6 +3004,18 @@ update_function_comment(CPPInstance *function, CPPScope *scope) {
     InterrogateFunction &ifunction =
       InterrogateDatabase::get_ptr()->update_function(index);
 
+    InterrogateFunction::Instances::iterator ii =
+      ifunction._instances->find(function_signature);
+    if (ii != ifunction._instances->end()) {
+      // The definition may name parameters the declaration did not.
+      (*ii).second = merge_parameter_names((*ii).second, function);
+    }
+
+    if (function->_leading_comment == nullptr) {
+      // No comment.  Nothing else to learn from this declaration.
+      return;
+    }
+
     // Update the comment.
     string comment = trim_blanks(function->_leading_comment->_comment);
     if (!ifunction._comment.empty()) {
@@ -2970,8 +3024,6 @@ update_function_comment(CPPInstance *function, CPPScope *scope) {
     ifunction._comment += comment;
 
     // Also update the particular wrapper comment.
-    InterrogateFunction::Instances::iterator ii =
-      ifunction._instances->find(function_signature);
     if (ii != ifunction._instances->end()) {
       if ((*ii).second->_leading_comment == nullptr ||
           function->_leading_comment->_comment.length() >
